@@ -378,16 +378,36 @@ func (r *Run) Parallel(n int, f func(i int)) int {
 	return int(done)
 }
 
-// Scratch returns a fresh private scratch directory (tmpfs when available) and
-// a cleanup function.
-func Scratch(tag string) (string, func()) {
+var (
+	scratchMu   sync.Mutex
+	scratchRoot string
+)
+
+// scratchBase creates (once per process) a randomly named private root; pids
+// are not unique across the sandboxes sharing /dev/shm, so they are not used.
+func scratchBase() string {
+	scratchMu.Lock()
+	defer scratchMu.Unlock()
+	if scratchRoot != "" {
+		return scratchRoot
+	}
 	base := "/dev/shm"
 	if st, err := os.Stat(base); err != nil || !st.IsDir() {
 		base = filepath.Join(Root(), ".scratch")
+		_ = os.MkdirAll(base, 0o755)
 	}
-	dir := filepath.Join(base, fmt.Sprintf("verif-%d", os.Getpid()))
-	_ = os.MkdirAll(dir, 0o755)
-	d, err := os.MkdirTemp(dir, tag)
+	d, err := os.MkdirTemp(base, "verif-")
+	if err != nil {
+		panic(err)
+	}
+	scratchRoot = d
+	return d
+}
+
+// Scratch returns a fresh private scratch directory (tmpfs when available) and
+// a cleanup function.
+func Scratch(tag string) (string, func()) {
+	d, err := os.MkdirTemp(scratchBase(), tag)
 	if err != nil {
 		panic(err)
 	}
@@ -396,8 +416,11 @@ func Scratch(tag string) (string, func()) {
 
 // CleanScratch removes this process's scratch root.
 func CleanScratch() {
-	for _, base := range []string{"/dev/shm", filepath.Join(Root(), ".scratch")} {
-		_ = os.RemoveAll(filepath.Join(base, fmt.Sprintf("verif-%d", os.Getpid())))
+	scratchMu.Lock()
+	defer scratchMu.Unlock()
+	if scratchRoot != "" {
+		_ = os.RemoveAll(scratchRoot)
+		scratchRoot = ""
 	}
 }
 
